@@ -420,6 +420,10 @@ def r62_eval(ctx, repo):
             return None if t1 is None else bytes([0xE, t1, 0, 0])
         raise KeyError(feat)
 
+    # hook run in the middle of a recipe (a second thread that changes a
+    # setting while the first one computes)
+    during = [None]
+
     def build():
         m = CoreModel(repo)
 
@@ -430,13 +434,18 @@ def r62_eval(ctx, repo):
             return r[1].content
 
         def m_a(ds):
-            return FeatData(bytes([0xA, get(ds, "f1")[0],
-                                   ds._attrs["config"]["calculation"]["k1"],
-                                   0]))
+            k = ds._attrs["config"]["calculation"]["k1"]
+            v = get(ds, "f1")[0]
+            if during[0] is not None:
+                during[0]()     # another thread changes a setting now
+            return FeatData(bytes([0xA, v, k, 0]))
 
         def m_b(ds):
-            return FeatData(bytes([0xB, get(ds, "f1")[0], get(ds, "f2")[0],
-                                   ds._attrs["config"]["calculation"]["k1"]]))
+            k = ds._attrs["config"]["calculation"]["k1"]
+            v1, v2 = get(ds, "f1")[0], get(ds, "f2")[0]
+            if during[0] is not None:
+                during[0]()
+            return FeatData(bytes([0xB, v1, v2, k]))
 
         def m_c(ds):
             v = get(ds, "f1")[0]
@@ -467,6 +476,20 @@ def r62_eval(ctx, repo):
         ds = m.dataset(dict(objs), cfg)
         done = []
         for label, op in hist + [("observe", None)]:
+            if isinstance(op, dict):
+                # a read during which another thread changes a setting:
+                # what this read returns is not judged (either state is
+                # acceptable), every later access is
+                def other_thread(k1=op["k1"]):
+                    st["k1"] = k1
+                    cfg["calculation"]["k1"] = k1
+                during[0] = other_thread
+                try:
+                    m.getitem(ds, op["read"])
+                finally:
+                    during[0] = None
+                done.append(label)
+                continue
             if callable(op):
                 before = dict(st["events"])
                 st["edit"] = []
@@ -566,6 +589,12 @@ def r62_eval(ctx, repo):
               "read deriv", "temporary feature `out` removed"),
             H("read deriv", "temporary feature `out` set (version 9)"),
         ]
+    conc = ("read out while another thread sets [calculation] k1 = 2 "
+            "during the computation", {"read": "out", "k1": 2})
+    conc_d = ("read deriv while another thread sets [calculation] k1 = 2 "
+              "during the computation of `out`", {"read": "deriv", "k1": 2})
+    hists += [[conc], [conc_d], [conc, dict(ops)["read deriv"]
+                                 and ("read deriv", "deriv")]]
     for h in hists:
         run_history(list(h))
     ctx.stat("R6.2 model histories", len(hists))
